@@ -7,7 +7,7 @@ Every rule of a property reads functions as functions of their arguments and of 
   * a non-const static is state that survives the call; the E-PURE engine decides it where a property module asked for it; elsewhere the
     function is not a function of its arguments as far as this analysis knows: UNDECIDED, never a pass.
 A static whose initialiser reads nothing of the call (tables, constants) is not state."""
-from .tree import walk, pp
+from .tree import walk, pp, strip_casts
 
 
 import re
@@ -145,6 +145,52 @@ def sweep(fx, R):
                            ', '.join(sorted({l_[0] for l_ in lost})), (lost[0][1] or ['default-initialised'])[0][:80]), fx.rel(g['loc']), 'E-STATE')
         else:
             R.holds('H3', inst, 'every member the read functions use (%s) is taken from the source object' % ', '.join(sorted(read)), fx.rel(g['loc']), 'E-STATE')
+    # ---- H4: caches kept in mutable members ---------------------------------------------------------------------------------
+    # `if (<cache member is empty>) cache = f(fields of the same object)`: the cache is validated by presence only.  When a field it was computed
+    # from can change afterwards (public data member, or a member some non-constructor method writes), the stale cache is used for the new value.
+    mutable_of = {}
+    for q_, rec in fx.records.items():
+        for fl_ in rec.get('fields', []):
+            if fl_.get('mutable'):
+                mutable_of.setdefault(q_, set()).add(fl_['name'])
+    if mutable_of:
+        writers = {}        # (class, field) -> non-constructor functions that assign it
+        for g in fx.functions.values():
+            if g.get('body') is None or g.get('ctor'):
+                continue
+            for y in walk(g['body']):
+                if isinstance(y, dict) and ((y.get('k') == 'Bin' and y.get('op') in ('=', '+=', '-=', '*=', '/=')) or (y.get('k') == 'Op' and y.get('op') in ('=', '+=', '-=', '*=', '/='))):
+                    l_ = strip_casts(y['l'] if y.get('k') == 'Bin' else y['args'][0])
+                    if l_.get('k') == 'Member' and l_.get('field'):
+                        writers.setdefault((l_.get('cls'), l_.get('name')), set()).add(g['q'])
+        for f in sorted(fns, key=lambda f: f['q']):
+            for x in walk(f.get('body')):
+                if not (isinstance(x, dict) and x.get('k') == 'If'):
+                    continue
+                cms = [y for y in walk(x['c']) if isinstance(y, dict) and y.get('k') == 'Member' and y.get('name') in mutable_of.get(y.get('cls'), ())]
+                others = [y for y in walk(x['c']) if isinstance(y, dict) and y.get('k') == 'Member' and y.get('field') and y not in cms]
+                if len(cms) != 1 or others:
+                    continue
+                cm = cms[0]
+                stores = [y for y in walk(x.get('t')) if isinstance(y, dict) and ((y.get('k') == 'Bin' and y.get('op') == '=') or (y.get('k') == 'Op' and y.get('op') == '=' and len(y.get('args', [])) == 2))]
+                for y in stores:
+                    l_, r_ = (y['l'], y['r']) if y.get('k') == 'Bin' else (y['args'][0], y['args'][1])
+                    l_ = strip_casts(l_)
+                    if not (l_.get('k') == 'Member' and l_.get('name') == cm['name'] and l_.get('cls') == cm.get('cls')):
+                        continue
+                    srcs = sorted({z['name'] for z in walk(r_) if isinstance(z, dict) and z.get('k') == 'Member' and z.get('field') and z.get('cls') == cm.get('cls') and z['name'] != cm['name']})
+                    rec = fx.records.get(cm.get('cls')) or {}
+                    acc = {fl_['name']: fl_.get('access') for fl_ in rec.get('fields', [])}
+                    changeable = [n_ for n_ in srcs if acc.get(n_) == 0 or [w_ for w_ in writers.get((cm.get('cls'), n_), ()) if w_ != f['q']]]
+                    inst = '%s:mutable-cache:%s' % (f['q'].split('(')[0], cm['name'])
+                    if changeable:
+                        R.violated('H4', inst, '`%s` is filled from %s when `%s` and re-used afterwards whenever it is present; %s can change after that (%s), and nothing compares the cached value with the '
+                                   'current one: the function then answers for the OLD %s - its result is not a function of the value it is given' % (
+                                       cm['name'], ', '.join(srcs), pp(x['c'])[:80], ', '.join(changeable),
+                                       'public data member' if acc.get(changeable[0]) == 0 else 'written by ' + sorted(writers.get((cm.get('cls'), changeable[0]), ['?']))[0].split('(')[0],
+                                       ', '.join(changeable)), fx.rel(x.get('loc') or f['loc']), 'E-PURE')
+                    elif srcs:
+                        R.holds('H4', inst, 'cache of %s, which nothing but the constructors writes' % ', '.join(srcs), fx.rel(x.get('loc') or f['loc']), 'E-PURE')
     # ---- H2: single precision inside a double computation -----------------------------------------------------------------
     prec = PRECISION.get(getattr(R, 'prop', None))
     if prec is not None:
